@@ -128,6 +128,13 @@ func genRunAt(w *bufio.Writer, rng *rand.Rand, run int, stats map[string]int, sh
 			n.out = nil
 		}
 	}
+	// the application calls Reset after a decision - at once, or (a slow ledger) some events later: until then the decided
+	// node keeps receiving payloads, timeouts, transactions and new-transaction notifications (C05 quiescence)
+	deferred := map[int]bool{}
+	doReset := func(n *node) {
+		delete(deferred, n.id)
+		n.op(fmt.Sprintf("R %d", n.lastTS), func() { n.d.Reset(n.lastTS) })
+	}
 	after := func(n *node, before uint32) {
 		if n.height != before {
 			if rng.Intn(25) == 0 {
@@ -135,7 +142,19 @@ func genRunAt(w *bufio.Writer, rng *rand.Rand, run int, stats map[string]int, sh
 				n.tip = toks(8, n.height)
 				stats["skipped-heights"]++
 			}
-			n.op(fmt.Sprintf("R %d", n.lastTS), func() { n.d.Reset(n.lastTS) })
+			if rng.Intn(3) == 0 {
+				deferred[n.id] = true
+				stats["deferred-resets"]++
+				return
+			}
+			doReset(n)
+		}
+	}
+	lateResets := func() {
+		for _, n := range nodes {
+			if deferred[n.id] && rng.Intn(6) == 0 {
+				doReset(n)
+			}
 		}
 	}
 	randHash := func() H {
@@ -326,6 +345,12 @@ func genRunAt(w *bufio.Writer, rng *rand.Rand, run int, stats map[string]int, sh
 			after(n, before)
 		case dyn && r < 93:
 			n := lives[rng.Intn(len(lives))]
+			for _, m := range lives { // half of the time a node that has decided and was not reset yet, when there is one
+				if deferred[m.id] && rng.Intn(2) == 0 {
+					n = m
+					break
+				}
+			}
 			before := n.height
 			n.op("N", func() { n.d.OnNewTransaction() })
 			after(n, before)
@@ -353,6 +378,8 @@ func genRunAt(w *bufio.Writer, rng *rand.Rand, run int, stats map[string]int, sh
 			best.op(fmt.Sprintf("T %d %d", h, v), func() { best.d.OnTimeout(h, v) })
 			after(best, before)
 		}
+		collect()
+		lateResets()
 		collect()
 	}
 	endRun(w, mon, nodes...)
